@@ -6,6 +6,7 @@ import XzVerif.Lemmas.RangeCoderAdaptive
 import XzVerif.Lemmas.LzmaChunk
 import XzVerif.Lemmas.RangeCoderRename
 import XzVerif.Lemmas.Lzma1ExecFinal
+import XzVerif.Lemmas.Lzma2ExecTop
 import XzVerif.Model.Lzma2Enc
 import XzVerif.Model.Lzma2
 import XzVerif.Model.MfPos
@@ -182,19 +183,42 @@ theorem lzma2_chunk_roundtrip (p : Props) (hp : PropsOk p) (dictSize : Nat) (hd 
         normalizeL rc' rest' = some (rc'', tail) ∧ rc''.code = 0 :=
   lzma_chunk_roundtrip p hp dictSize hd ps hps syms pos s hs rb rb' hexp
 
-/-- Full-strength LZMA2 statement, NOT proved: the executable chunker of `Model/Lzma2Enc.lean` (headers, chunk limits,
-    uncompressed fallback, need_properties / need_state_reset / need_dictionary_reset, end marker) composed with the
-    executable LZMA2 decoder model of `Model/Lzma2.lean`. Missing: (1) refinement of the executable (ByteArray/trace) encoder
-    to `encSyms`; (2) the header/control-byte bookkeeping on both sides; (3) the link between the decoder model
-    (`Lzma.decodeSymbol`, dictionary positions, limits) and `decodeSym`/`decBytes`, incl. the position-relabelling
-    symmetry after uncompressed chunks and preset dictionaries. Every run of the check tests this statement on all traced
-    cases (driver ops `lzma2` + `dec2`). -/
-def lzma2_roundtrip_statement : Prop :=
-  ∀ (p : Props) (dictSize : Nat) (preset data : ByteArray) (trace : Array TraceRec) (res : EncResult),
-    PropsOk p → 4096 ≤ dictSize → dictSize ≤ 1610612736 →
-    lzma2Encode p dictSize (preset ++ data) preset.size trace = .ok res →
-    Lzma2.lzma2Decode dictSize res.out preset.toList =
-      { ret := .streamEnd, out := data.toList, consumed := res.out.length }
+/-- LZMA2, full strength. The EXECUTABLE chunker `Lzma2Enc.lzma2Encode` (chunk limits, uncompressed fallback incl. the
+    bytes the match finder had read ahead, `lzma2_header_lzma` / `lzma2_header_uncompressed`, need_properties /
+    need_state_reset / need_dictionary_reset, flush points, end marker; the encoder's `position` lagging behind after an
+    uncompressed chunk) followed by the EXECUTABLE decoder `Lzma2.lzma2Decode` (Model/Lzma2.lean over Model/Lzma.lean:
+    SEQ_CONTROL … SEQ_COPY, dictionary reset through the LZ layer, `dict_write`, `lzma_decode` with known chunk sizes,
+    dictionary wrap-around in the middle of chunks, the compressed-size accounting) returns LZMA_STREAM_END, exactly the
+    data, and has consumed exactly the stream — for every trace the chunker accepts, i.e. for EVERY chunking it can
+    produce (any mix of LZMA and uncompressed chunks, with and without state resets, with or without preset dictionary).
+    The position lag and the decoder's different position origin are handled by the context renaming `ctxMap`
+    (`Lemmas/LzmaCtxMap.lean`, through `rc_context_renaming`'s lemma `rcEncode_rename`), as is the different index order of
+    `rc_bittree_rev4` in the decoder. -/
+theorem lzma2_roundtrip (p : Props) (hp : PropsOk p) (dictSize : Nat) (hd : dictSize ≤ 4294967295) (preset data : ByteArray)
+    (trace : Array TraceRec) (res : EncResult)
+    (h : lzma2Encode p dictSize (preset ++ data) preset.size trace = .ok res) (outCap : Nat) (hcap : data.size < outCap) :
+    Lzma2.lzma2Decode dictSize res.out preset.toList outCap =
+      { ret := .streamEnd, out := data.toList, consumed := res.out.length } :=
+  LzmaExec.lzma2_exec_roundtrip p hp dictSize hd preset data trace res h outCap hcap
+
+/-- The chunker's output is a valid LZMA2 stream in the sense of the chunk specification `LzmaExec.ChunkOk` (every LZMA
+    chunk: header for the current flags and the true sizes + `rc_reset`, the operations of a valid description from the
+    encoder's current state — fresh after a state reset —, `rc_flush`; every uncompressed chunk: header + raw bytes), the
+    chunks cover exactly the data, then 0x00. -/
+theorem lzma2_model_chunks (p : Props) (dictSize : Nat) (buf : ByteArray) (base : Nat) (trace : Array TraceRec)
+    (res : EncResult) (hbase : base ≤ buf.size) (h : lzma2Encode p dictSize buf base trace = .ok res) :
+    ∃ bytes CF, LzmaExec.Chunks p dictSize buf base (LzmaExec.cfg0 p base) bytes CF ∧ CF.off = buf.size - base ∧
+      res.out = bytes ++ [0] :=
+  LzmaExec.lzma2Encode_sound p dictSize buf base trace res hbase h
+
+/-- The executable LZMA2 decoder accepts EVERY stream that satisfies the chunk specification (not only the encoder's). -/
+theorem lzma2_decoder_model_roundtrip (p : Props) (hp : PropsOk p) (dictSize : Nat) (hd : dictSize ≤ 4294967295)
+    (buf : ByteArray) (base : Nat) (hbase : base ≤ buf.size) (bytes : List UInt8) (CF : LzmaExec.L2Cfg)
+    (hch : LzmaExec.Chunks p dictSize buf base (LzmaExec.cfg0 p base) bytes CF) (hoff : CF.off = buf.size - base)
+    (outCap : Nat) (hcap : buf.size - base < outCap) :
+    Lzma2.lzma2Decode dictSize (bytes ++ [0]) ((LzmaExec.hl buf).take base) outCap =
+      { ret := .streamEnd, out := (LzmaExec.hl buf).drop base, consumed := bytes.length + 1 } :=
+  LzmaExec.lzma2Decode_of_chunks p hp dictSize hd buf base hbase bytes CF hch hoff outCap hcap
 
 /-- The EXECUTABLE LZMA1 encoder model (`LzmaEnc.lzma1Encode`: the function the driver runs over the H2 trace and whose
     bytes are compared with the C encoder's on every check) refines the specification encoder: whenever it accepts a
